@@ -363,7 +363,7 @@ def main(run, shard=(0, 1)) -> None:
         'EntityFixup.__setitem__': (vm, 'EntityFixup.__setitem__'), 'EntityFixup.__init__': (vm, 'EntityFixup.__init__'),
     })
     probe.start()
-    n = 12000 if run.tier == 'thorough' else 400
+    n = 100000 if run.tier == "thorough" else 400
     for i in range(n):
         if mine(i, shard):
             run_history(run, run.seed, i)
